@@ -17,4 +17,117 @@ def daemonRank : Nat → Nat
   | _ => 0   -- a lock field the table does not know: may only be taken with nothing held
 
 
+/-! ## Close (db.go: DB.Close) — markers 3 = releaseReadLock-if-held, 4 = db/f/rtx cleared -/
+
+def indexOfMark (n : Nat) (p : Path) : Option Nat := p.findIdx? (· == .mark n)
+
+/-- A path of `DB.Close` is fine when the executor is acquired uncancellably (no cancellable wait and no
+    failed try on `execSem` = 4), the read lock is released (marker 3) before the handles are cleared
+    (marker 4), both happen, and nothing is held at the end. -/
+def closePathOK (p : Path) : Bool :=
+  !p.contains (.acq 4 .W true) && !p.contains (.tryFail 4 .W) && p.contains (.acq 4 .W false) &&
+  (match indexOfMark 3 p, indexOfMark 4 p with
+   | some i, some j => decide (i < j)
+   | _, _ => false) &&
+  (heldAfter [] p == some [])
+
+/-! ## Snapshot position hand-off (db.go: snapshotPosition vs checkpointWithExecutor)
+    marker 1 = position capture (`db.Pos()` in snapshotPosition), marker 2 = the SQLite checkpoint. -/
+
+/-- From the capture (marker 1) to `chkMu.RLock` (acq 7 R) the executor semaphore (4) is held without a gap. -/
+def windowHeld : Held → Bool → Path → Bool
+  | _, _, [] => true
+  | h, _, .mark 1 :: p => h.contains (4, .W) && windowHeld h true p
+  | h, w, .acq 7 .R c :: p => (!w || h.contains (4, .W)) && windowHeld (applyHeld h (.acq 7 .R c)) false p
+  | h, w, .rel 4 .W :: p =>
+    -- releasing the executor inside the window is only allowed when the snapshot is abandoned (no RLock follows)
+    (!w || !(p.any fun e => match e with | .acq 7 .R _ => true | _ => false)) && windowHeld (h.erase (4, .W)) false p
+  | h, w, e :: p => windowHeld (applyHeld h e) w p
+
+/-- Every marker `n` occurs while `(l, W)` is held. -/
+def marksUnder (n : Nat) (l : LockId) : Held → Path → Bool
+  | _, [] => true
+  | h, .mark k :: p => (k != n || h.contains (l, .W)) && marksUnder n l h p
+  | h, e :: p => marksUnder n l (applyHeld h e) p
+
+/-- Projection on the hand-off protocol: events on `execSem` (4), `chkMu` (7) and the markers 1, 2. -/
+def projHandoff (p : Path) : Path := p.filter fun e =>
+  match e with
+  | .acq l _ _ => l == 4 || l == 7
+  | .tryAcq l _ => l == 4 || l == 7
+  | .tryFail l _ => l == 4 || l == 7
+  | .rel l _ => l == 4 || l == 7
+  | .mark n => n == 1 || n == 2
+  | _ => false
+
+/-- All interleavings (depth-first, `fuel` ≥ total length): `win = some i` while thread `i` is between its
+    capture and its `chkMu.RLock`; a marker 2 of another thread in that window falsifies atomicity. -/
+def atomicRuns : Nat → State → Option Nat → Bool
+  | 0, _, _ => true
+  | fuel + 1, s, win =>
+    (List.range s.threads.length).all fun i =>
+      match s.threads[i]?, stepAt s i with
+      | some t, some s' =>
+        match t.rest with
+        | .mark 1 :: _ => atomicRuns fuel s' (some i)
+        | .acq 7 .R _ :: _ => atomicRuns fuel s' (if win == some i then none else win)
+        | .rel 4 .W :: _ => atomicRuns fuel s' (if win == some i then none else win)  -- abandoned snapshot
+        | .mark 2 :: _ => (win.isNone || win == some i) && atomicRuns fuel s' win
+        | _ => atomicRuns fuel s' win
+      | _, _ => true
+
+def handoffAtomic (a b : Path) : Bool :=
+  let ts : List Thread := [{ rest := a }, { rest := b }]
+  atomicRuns (totalLen ts) (State.init ts) none
+
+/-! ## Double-checked registration (store.go: RegisterDB) -/
+
+/-- statement shape of `Store.RegisterDB` that the step relation below transcribes -/
+def registerShape : List String :=
+  ["lock", "check:unlock,return", "unlock", "open", "lock", "check:unlock,close,return", "append", "unlock"]
+
+namespace Register
+
+/-- Program counter of one `RegisterDB(path)` call with its own fresh `*DB` instance. -/
+inductive PC
+  | s0      -- before the first `s.mu.Lock()`
+  | s1      -- holding `s.mu`, first scan of `s.dbs`
+  | s2      -- lock released, nothing found: about to `db.Open()`
+  | s3      -- own instance opened, before the second `s.mu.Lock()`
+  | s4      -- holding `s.mu`, second scan
+  | s5      -- duplicate found, lock released: about to close the own instance
+  | dEarly  -- returned after the first scan (own instance never opened)
+  | dDup    -- returned after closing the own (duplicate) instance
+  | dReg    -- returned after appending the own instance to `s.dbs`
+  deriving DecidableEq, Repr
+
+structure St where
+  mu  : Option Nat          -- holder of `Store.mu`
+  dbs : List Nat            -- instances registered for the path
+  pc  : Nat → PC
+
+def upd (f : Nat → PC) (i : Nat) (v : PC) : Nat → PC := fun j => if j = i then v else f j
+
+def init : St := { mu := none, dbs := [], pc := fun _ => .s0 }
+
+/-- One step of thread `i < k`; `second` = the second scan exists (it does in the code, see `gen_register_shape`). -/
+inductive Step (second : Bool) (k : Nat) : St → St → Prop
+  | lock1 {s i} : i < k → s.pc i = .s0 → s.mu = none → Step second k s { s with mu := some i, pc := upd s.pc i .s1 }
+  | found1 {s i} : i < k → s.pc i = .s1 → s.dbs ≠ [] → Step second k s { s with mu := none, pc := upd s.pc i .dEarly }
+  | none1 {s i} : i < k → s.pc i = .s1 → s.dbs = [] → Step second k s { s with mu := none, pc := upd s.pc i .s2 }
+  | open_ {s i} : i < k → s.pc i = .s2 → Step second k s { s with pc := upd s.pc i .s3 }
+  | lock2 {s i} : i < k → s.pc i = .s3 → s.mu = none → Step second k s { s with mu := some i, pc := upd s.pc i .s4 }
+  | found2 {s i} : i < k → s.pc i = .s4 → second = true → s.dbs ≠ [] → Step second k s { s with mu := none, pc := upd s.pc i .s5 }
+  | append {s i} : i < k → s.pc i = .s4 → (second = false ∨ s.dbs = []) →
+      Step second k s { mu := none, dbs := s.dbs ++ [i], pc := upd s.pc i .dReg }
+  | close {s i} : i < k → s.pc i = .s5 → Step second k s { s with pc := upd s.pc i .dDup }
+
+inductive Reach (second : Bool) (k : Nat) : St → Prop
+  | init : Reach second k init
+  | step {s s'} : Reach second k s → Step second k s s' → Reach second k s'
+
+def done (p : PC) : Prop := p = .dEarly ∨ p = .dDup ∨ p = .dReg
+
+end Register
+
 end Litestream.Locks
